@@ -44,3 +44,17 @@ pub open spec fn msub(a: int, b: int) -> int { madd(a, mneg(b)) }
 #[verifier::external_body] pub proof fn bx_add_comm(a: int, b: int) ensures madd(a, b) == madd(b, a) {}
 /// [p | q] [[a, b], [c, d]] = [p a + q c | p b + q d]
 #[verifier::external_body] pub proof fn bx_mul_concat_rows(p: int, q: int, a: int, b: int, c: int, d: int) ensures mmul(mconcat(p, q), mstack(mconcat(a, b), mconcat(c, d))) == mconcat(madd(mmul(p, a), mmul(q, c)), madd(mmul(p, b), mmul(q, d))) {}
+/// a matrix is its top rows stacked on its bottom rows / its left columns next to its right columns
+#[verifier::external_body] pub proof fn bx_split(a: int, r: int) requires 0 <= r
+    ensures r <= nr(a) ==> a == mstack(mrows(a, 0, r), mrows(a, r, nr(a))), r <= nc(a) ==> a == mconcat(mcols(a, 0, r), mcols(a, r, nc(a))) {}
+#[verifier::external_body] pub proof fn bx_sub_zero(r: int, c: int, lo: int, hi: int) ensures mrows(mzero(r, c), lo, hi) == mzero(hi - lo, c), mcols(mzero(r, c), lo, hi) == mzero(r, hi - lo) {}
+/// [0 | I_k] w = the last k rows of w;   z [0 ; I_k] = the last k columns of z
+#[verifier::external_body] pub proof fn bx_proj(w: int, k: int) requires 0 <= k
+    ensures k <= nr(w) ==> mmul(mconcat(mzero(k, nr(w) - k), mid(k)), w) == mrows(w, nr(w) - k, nr(w)),
+        k <= nc(w) ==> mmul(w, mstack(mzero(nc(w) - k, k), mid(k))) == mcols(w, nc(w) - k, nc(w)) {}
+/// permutation matrices: pm(p) and its inverse (= transpose) pmi(p), for a permutation of n points
+pub uninterp spec fn pm(p: int) -> int;
+pub uninterp spec fn pmi(p: int) -> int;
+pub uninterp spec fn pdim(p: int) -> int;
+#[verifier::external_body] pub proof fn bx_perm(p: int)
+    ensures nr(pm(p)) == pdim(p), nc(pm(p)) == pdim(p), nr(pmi(p)) == pdim(p), nc(pmi(p)) == pdim(p), mmul(pm(p), pmi(p)) == mid(pdim(p)), mmul(pmi(p), pm(p)) == mid(pdim(p)) {}
